@@ -35,10 +35,51 @@ fn windows_allocator(repo: &str, out: &str) {
     fs::write(dir.join("x64.rs"), x64).unwrap();
 }
 
+/// platform variants of the OS-facing layer: the repository's common.rs *itself* (allocation, page protection, the
+/// write + flush primitives, PatchGuard) together with the emitters, compiled on this host for (os, arch) pairs that are
+/// not this host, against shims of the OS items (src/platsim.rs).  Substitutions, all textual:
+///   `target_os = "<o>"` / `target_arch = "<a>"`  ->  `all()` when it is the variant's, else `any()`;
+///   `crate::injector_core::` -> `super::` (emitters) / nothing (common.rs, whose shims are imported by a prelude line);
+///   `libc::` -> `libc_shim::`;  the one `asm!("dsb sy", "isb", ..)` statement -> `barrier();`;
+///   the `#![cfg(...)]` file attributes are dropped.
+fn platform_variants(repo: &str, out: &str) {
+    let files = ["common.rs", "patch_arm64.rs", "arm64_codegenerator.rs", "utils.rs", "patch_amd64.rs", "patch_trait.rs"];
+    for (variant, os, arch) in [("plat_macos_a64", "macos", "aarch64"), ("plat_macos_x64", "macos", "x86_64"), ("plat_windows_x64", "windows", "x86_64"),
+                                ("plat_windows_a64", "windows", "aarch64"), ("plat_linux_a64", "linux", "aarch64"), ("plat_linux_x64", "linux", "x86_64")] {
+        let dir = Path::new(out).join(variant);
+        fs::create_dir_all(&dir).unwrap();
+        for f in files {
+            let src = fs::read_to_string(format!("{repo}/{f}")).unwrap_or_else(|_| String::from("// missing in this tree\n"));
+            let mut text = String::new();
+            if f == "common.rs" {
+                text.push_str("#[allow(unused_imports)] use crate::platsim::shims::{barrier, libc_shim, linuxapi, mach2, macosapi, winapi};\n");
+            }
+            for line in src.lines() {
+                if line.trim_start().starts_with("#![cfg(") {
+                    continue;
+                }
+                text.push_str(line);
+                text.push('\n');
+            }
+            for o in ["linux", "macos", "windows"] {
+                text = text.replace(&format!("target_os = \"{o}\""), if o == os { "all()" } else { "any()" });
+            }
+            for a in ["aarch64", "x86_64", "arm"] {
+                text = text.replace(&format!("target_arch = \"{a}\""), if a == arch { "all()" } else { "any()" });
+            }
+            text = text.replace("crate::injector_core::", if f == "common.rs" { "" } else { "super::" });
+            text = text.replace("libc::", "libc_shim::");
+            text = text.replace("core::arch::asm!(\"dsb sy\", \"isb\", options(nostack, nomem));", "barrier();");
+            fs::write(dir.join(f), text).unwrap();
+        }
+    }
+}
+
 fn main() {
     let repo = "/repo/src/injector_core";
     let out = std::env::var("OUT_DIR").unwrap();
     windows_allocator(repo, &out);
+    platform_variants(repo, &out);
     let files = ["patch_arm64.rs", "arm64_codegenerator.rs", "utils.rs", "patch_arm.rs", "patch_amd64.rs", "patch_trait.rs"];
     for f in files {
         println!("cargo:rerun-if-changed={repo}/{f}");
